@@ -55,6 +55,33 @@ func labelsOf(text string) (ref.Labels, error) {
 	return ref.Labels(n), nil
 }
 
+// rawHigh reports whether the text holds an octet >= 0x80 as such. The library's presentation form
+// writes those as \DDD; raw ones (UTF-8 or Latin-1 typed into an API) go through strings.ToLower /
+// CanonicalName, which work on Unicode: 'É' is lower-cased and an invalid octet becomes U+FFFD, so the
+// result differs from that of the \DDD spelling of the same octets. The statement's "independent of
+// the letter case of the name" is about the 26 ASCII letters DNS compares case-insensitively (RFC
+// 4343), and DESIGN 7.4 places raw octets >= 0x80 outside the library's presentation form: such text
+// is never generated here and a replayed case that carries it is not evaluated.
+func rawHigh(s string) bool {
+	for i := 0; i < len(s); i++ {
+		if s[i] >= 0x80 {
+			return true
+		}
+	}
+	return false
+}
+
+func highOctet(n ref.Labels) bool {
+	for _, l := range n {
+		for _, b := range l {
+			if b >= 0x80 {
+				return true
+			}
+		}
+	}
+	return false
+}
+
 func lenClass(n int) string {
 	switch {
 	case n == 0:
@@ -86,10 +113,14 @@ func checkKey(c keyCase) error {
 	if c.Algorithm == ref.AlgRSAMD5 {
 		return nil // RSA/MD5 has its own key tag definition; outside the property
 	}
+	if rawHigh(c.Owner) || rawHigh(c.Owner2) {
+		return nil
+	}
 	rdata := ref.DNSKEYRdata(c.Flags, c.Protocol, c.Algorithm, c.Key)
 	pbt.Note(append([]byte(c.Owner+"|"), rdata...), len(c.Key) >= 3,
 		lenClass(len(c.Key)), fmt.Sprintf("keylen-odd=%v", len(c.Key)%2 == 1), fmt.Sprintf("owner-labels=%d", min(len(owner), 3)),
-		fmt.Sprintf("owner-casevariant=%v", c.Owner != c.Owner2), "object-state="+map[bool]string{true: "fresh", false: c.State}[c.State == ""])
+		fmt.Sprintf("owner-casevariant=%v", c.Owner != c.Owner2), "object-state="+map[bool]string{true: "fresh", false: c.State}[c.State == ""],
+		fmt.Sprintf("owner-has-octet>=0x80(written \\DDD)=%v", highOctet(owner)))
 
 	mk := func(name string) *dns.DNSKEY {
 		k := &dns.DNSKEY{Hdr: dns.RR_Header{Name: name, Rrtype: dns.TypeDNSKEY, Class: c.Class, Ttl: c.TTL},
